@@ -34,8 +34,8 @@ ASSUMPTIONS = [
     "a URL component mixing valid %XX escapes with stray '%' may be encoded either way (keep valid escapes / encode every '%')",
 ]
 REQUIRED_PROBES = {
-    "quick": ["rejected_zero_bytes", "accepted_exact", "entry:conn", "entry:pool", "entry:pm", "entry:h2", "h2_rejected", "h2_accepted", "obs_fold_roundtrip", "target_percent_encoded", "body_checked", "follow_up_clean_after_rejection", "follow_up_clean", "warm_connection_in_pool", "early_answer_then_follow_up"],
-    "thorough": ["rejected_zero_bytes", "accepted_exact", "entry:conn", "entry:pool", "entry:pm", "entry:h2", "h2_rejected", "h2_accepted", "obs_fold_roundtrip", "target_percent_encoded", "body_checked", "follow_up_clean_after_rejection", "follow_up_clean", "warm_connection_in_pool", "early_answer_then_follow_up"],
+    "quick": ["rejected_zero_bytes", "accepted_exact", "entry:conn", "entry:pool", "entry:pm", "entry:h2", "h2_rejected", "h2_accepted", "obs_fold_roundtrip", "target_percent_encoded", "body_checked", "follow_up_clean_after_rejection", "follow_up_clean", "warm_connection_in_pool", "early_answer_then_follow_up", "headers_object_reused", "json_body_checked"],
+    "thorough": ["rejected_zero_bytes", "accepted_exact", "entry:conn", "entry:pool", "entry:pm", "entry:h2", "h2_rejected", "h2_accepted", "obs_fold_roundtrip", "target_percent_encoded", "body_checked", "follow_up_clean_after_rejection", "follow_up_clean", "warm_connection_in_pool", "early_answer_then_follow_up", "headers_object_reused", "json_body_checked"],
 }
 
 HOSTILE = [
@@ -102,6 +102,20 @@ def gen(rng, k):
     if entry in ("pool", "pm") and rng.random() < 0.3:
         sc["warm"] = True
         sc["second"] = True
+    if entry in ("pool", "pm") and nh == 0 and rng.random() < 0.06:
+        # a JSON request (the library adds Content-Type itself) made with a headers object that the caller then uses again for an
+        # ordinary request: the second request must carry the caller's lines, not what the library added for the first
+        sc["json"] = {"a": 1, "k": "\u00e9"}
+        sc["method"], sc["body"] = "POST", None
+        sc["headers"] = [h for h in sc["headers"] if h[1] != SKIP and h[0].lower() not in ("content-type", "content-length", "transfer-encoding", "host")]
+        sc["container"] = rng.choice(["hhd", "hhd", "dict"])
+        if sc["container"] == "dict":
+            seen_ = set()
+            sc["headers"] = [h for h in sc["headers"] if not (h[0] in seen_ or seen_.add(h[0]))]  # a dict holds each key once
+        sc["second"] = True
+        sc["reuse_headers"] = True
+        sc["warm"] = False
+        return sc
     if entry in ("pool", "pm") and nh == 0 and rng.random() < 0.08:
         # a large upload to a server that answers as soon as it has the header block and stops reading; the body write is cut short
         # by a send time-out (or a reset) half way.  Whatever follows on that pool must start at a message boundary.
@@ -182,10 +196,16 @@ def run(sc: dict) -> Result:
                 c.close()
             elif entry == "pool":
                 p = holder["obj"] = holder["obj"] or urllib3.HTTPConnectionPool("h.test", 80, timeout=3.0)
-                p.urlopen(method, path, body=body, headers=hdrs, retries=False)
+                if sc.get("json") is not None:
+                    p.request(method, path, json=sc["json"], headers=hdrs, retries=False)
+                else:
+                    p.urlopen(method, path, body=body, headers=hdrs, retries=False)
             else:
                 pm = holder["obj"] = holder["obj"] or urllib3.PoolManager(timeout=3.0)
-                pm.request(method, "http://h.test" + path, body=body, headers=hdrs, retries=False)
+                if sc.get("json") is not None:
+                    pm.request(method, "http://h.test" + path, json=sc["json"], headers=hdrs, retries=False)
+                else:
+                    pm.request(method, "http://h.test" + path, body=body, headers=hdrs, retries=False)
         except (W.SimHang, W.StepLimit) as e:
             err = e
             res.bad("hang", str(e))
@@ -203,10 +223,14 @@ def run(sc: dict) -> Result:
             mark = {s_.sid: len(s_.sent) for s_ in w.sockets}
             err2 = None
             try:
+                h2 = {"X-Second": "2"}
+                if sc.get("reuse_headers"):
+                    h2 = hdrs  # the caller's own headers object, used again
+                    h2["X-Second"] = "2"
                 if entry == "pool":
-                    obj.urlopen("GET", "/follow", headers={"X-Second": "2"}, retries=False)
+                    obj.urlopen("GET", "/follow", headers=h2, retries=False)
                 else:
-                    obj.request("GET", "http://h.test/follow", headers={"X-Second": "2"}, retries=False)
+                    obj.request("GET", "http://h.test/follow", headers=h2, retries=False)
             except (W.SimHang, W.StepLimit) as e:
                 res.bad("hang", str(e))
                 err2 = e
@@ -230,7 +254,11 @@ def run(sc: dict) -> Result:
             else:
                 q2 = reqs2[0]
                 names = {n.lower() for n, _ in q2["fields"]}
-                if q2["method"] != b"GET" or q2["target"] != b"/follow" or not names <= {b"host", b"accept-encoding", b"user-agent", b"x-second"} or b"x-second" not in names:
+                own = {b"host", b"accept-encoding", b"user-agent", b"x-second"}
+                if sc.get("reuse_headers"):
+                    own |= {k_.lower().encode("latin-1", "replace") for k_, v_ in sc["headers"] if v_ != SKIP}
+                    res.probes["headers_object_reused"] += 1
+                if q2["method"] != b"GET" or q2["target"] != b"/follow" or not names <= own or b"x-second" not in names:
                     res.bad("follow_up_carries_foreign_lines", f"GET /follow went out as {q2['method']!r} {q2['target']!r} with fields {q2['fields']!r}")
                 else:
                     res.probes["follow_up_clean_after_rejection" if err is not None else "follow_up_clean"] += 1
@@ -324,6 +352,8 @@ def check_request(sc, req, res, entry):
     if "content-length" not in keys and "transfer-encoding" not in keys:
         allowed[b"content-length"] = lambda v: v.isdigit()
         allowed[b"transfer-encoding"] = lambda v: v == b"chunked"
+    if sc.get("json") is not None and "content-type" not in keys:
+        allowed[b"content-type"] = lambda v: v == b"application/json"
     if entry == "pm" and sc["body"] is None and False:
         pass
     seen = set()
@@ -336,7 +366,15 @@ def check_request(sc, req, res, entry):
             return
         seen.add(key)
     # ---- body
-    if sc["body"] is not None:
+    if sc.get("json") is not None:
+        import json as _json
+
+        want = _json.dumps(sc["json"], separators=(",", ":"), ensure_ascii=False).encode("utf-8")
+        if req["body"] != want:
+            res.bad("body_altered", f"json= sent {req['body'][:80]!r}, reference {want[:80]!r}")
+        else:
+            res.probes["json_body_checked"] += 1
+    elif sc["body"] is not None:
         want = sc["body"].encode("utf-8")
         if "content-length" in keys or "transfer-encoding" in keys:
             pass
